@@ -65,7 +65,16 @@ def run(bid, ws, props):
         sh("git -C /repo worktree remove --force %s" % wt)
         shutil.rmtree(wt, ignore_errors=True)
         sh("git -C /repo worktree prune")
-        json.dump(res, open(os.path.join(d, "result.json"), "w"), indent=1)
+        # a run over some properties only refreshes those entries
+        old = os.path.join(d, "result.json")
+        if os.path.exists(old) and res.get("results"):
+            try:
+                prev = json.load(open(old)).get("results", {})
+                prev.update(res["results"])
+                res["results"] = dict(sorted(prev.items()))
+            except Exception:
+                pass
+        json.dump(res, open(old, "w"), indent=1)
         if ws == ROOT:
             sh("go run -tags verif ./cmd/translate -out ../lean/Spine/Generated", cwd=os.path.join(ROOT, "go"), env=dict(ENV, VERIF_REPO="/repo"))
             sh("go run . -out ../../lean/Spine/Generated", cwd=os.path.join(ROOT, "go", "lockgraph"), env=dict(ENV, VERIF_REPO="/repo"))
